@@ -998,7 +998,11 @@ func (e *SpecEnv) evalCall(x *SX) (Term, error) {
 		cls := x.Args[1]
 		name := cls.Name
 		if cls.Op == "sel" {
+			// pkg.Type: the class qualified by the package name (two packages may declare error types of the same name)
 			name = cls.Name
+			if len(cls.Args) == 1 && cls.Args[0].Name != "" {
+				name = cls.Args[0].Name + "." + cls.Name
+			}
 		}
 		return Term{sx("errIs", a.S, e.ss().StrConst("errclass:"+name)), SBool}, nil
 	}
